@@ -66,15 +66,18 @@ impl Exec {
 /// Run until nothing is ready and no timer is pending (bounded).
 pub fn drain(exec: &mut Exec, max_rounds: usize, mut at_point: impl FnMut(&mut Exec)) {
   for _ in 0..max_rounds {
+    world::step();
     exec.run();
     at_point(exec);
     match world::next_deadline() {
       Some(t) => {
         let now = world::now();
+        world::step();
         world::advance(t - now);
         at_point(exec);
       }
       None => {
+        world::step();
         exec.run();
         return;
       }
@@ -300,12 +303,15 @@ pub(crate) fn c07_run(threads_form: bool, max_items: u32, do_cut: bool) {
     for ev in &evs {
       let gap = e::choose(3) as u64;
       if gap > 0 {
+        world::step();
         world::advance(gap);
         cut_point(exec);
       }
+      world::step();
       if exec.run_optional() {
         cut_point(exec);
       }
+      world::step();
       let h = if threads_form { cat::feed_hot_t(0, ev) } else { cat::feed_hot(0, ev) };
       if h {
         if sub_time.is_none() {
